@@ -29,6 +29,8 @@ def worker(mod_json, wseed, nvalues, cfg_kw, spec_name, flags=drv.DEFAULT_FLAGS,
     if mod.name.startswith("CatHuge"):
         nvalues = max(5, nvalues // 8)
     cfg = gen.Cfg(**cfg_kw)
+    if "-fwide-types" in flags and getattr(spec, "WIDE_VALUES_WITH_WIDE_TYPES", False):
+        cfg.wide_ints = True        # INTEGER_t carries values beyond 64 bits
     mb, mod, rejected = pipeline.compile_module(mod, flags, variant)
     for r in rejected:
         acc.extra["types_rejected_by_asn1c"] += 1
